@@ -174,7 +174,7 @@ class Protocol:
         if tag == "TIDY":
             return [(st._replace(flags=st.flags | {"tidy"}), None)]
         if tag in CONSEQUENCES:
-            if st.acked:
+            if st.acked and "ht_id" not in st.flags:
                 self._after_ack(func, call, st, tag, node)
             s2 = st
             if tag == "DEFER":
